@@ -76,6 +76,12 @@ def gen_cases(rng, tier):
                          [(65536, "e", 1), (65537, "e", 1), (70000, "o", 1), (100003, "o", 2), (131072, "o", 2), (208953, "e", 1)]):
         cases.append({"kind": "longpower", "cls": cls, "npol": npol, "n": n, "noise": rng.random() < 0.5, "dom": "-", "shift": False,
                       "dtype": rng.choice(["complex", "real"]), "gv": {"sps": 16, "R": 1e9}, "seed": rng.getrandbits(32), "amp": 1.0, "namp": 0.25})
+    # narrow floating dtypes whose SQUARED magnitude leaves the range of the narrow type (power() must not square in it)
+    for dt_, amp_ in [("float16", 500.0), ("float16", 2000.0), ("float32", 1e20), ("complex64", 1e20), ("float32", 1e-30), ("complex64", 1e-28)]:
+        for npol in (1, 2):
+            cases.append({"kind": "narrowpower", "cls": "o" if npol == 2 else rng.choice(["e", "o"]), "npol": npol, "n": rng.choice([7, 16, 33]),
+                          "noise": rng.random() < 0.5, "dom": "-", "shift": False, "dtype": dt_, "gv": {"sps": 16, "R": 1e9},
+                          "seed": rng.getrandbits(32), "amp": amp_, "namp": 0.25})
     for dom in ("x", "T", "", "freq"):
         cases.append({"kind": "baddomain", "dom": dom, "n": 4, "cls": "e", "npol": 1, "noise": False, "dtype": "real",
                       "shift": False, "gv": {"sps": 16, "R": 1e9}, "seed": 3})
@@ -96,6 +102,8 @@ def _data(case):
             return r.integers(0, 2, size=shape).astype(bool)
         if case["dtype"] == "float32":
             return (r.normal(size=shape) * 3).astype(np.float32)
+        if case["dtype"] == "float16":
+            return (r.uniform(0.5, 1.0, size=shape) * r.choice([-1.0, 1.0], size=shape)).astype(np.float16)
         if case["dtype"] == "complex64":
             return (r.normal(size=shape) + 1j * r.normal(size=shape)).astype(np.complex64)
         if case["dtype"] == "real":
@@ -103,6 +111,11 @@ def _data(case):
         return r.normal(size=shape) + 1j * r.normal(size=shape)
     amp = case.get("amp", 1.0)
     exact = case["dtype"] in ("int", "uint8", "bool")
+    if case.get("kind") == "narrowpower":          # samples stay in the narrow dtype, scaled inside it
+        nd = {"float16": np.float16, "float32": np.float32, "complex64": np.complex64}[case["dtype"]]
+        s = (draw().astype(np.complex128 if nd is np.complex64 else np.float64) * amp).astype(nd)
+        nz = (draw().astype(np.complex128 if nd is np.complex64 else np.float64) * amp * 0.25).astype(nd) if case["noise"] else None
+        return s, nz
     s = draw() if exact else draw() * (np.float32(amp) if case["dtype"] in ("float32", "complex64") and 1e-30 < amp < 1e30 else amp)
     nz = draw() * (case.get("namp", 0.25) * amp) if case["noise"] else None
     if nz is not None and case["dtype"] == "int":
@@ -176,8 +189,10 @@ def run_impl(case):
                         pass
                     w2 = x.w(shift=sv)
                     res["w_again_same"] = bool(np.array_equal(np.asarray(w2, dtype=float), w_first))
-                elif case["kind"] == "longpower":
-                    tot = x0[0] if x0[1] is None else x0[0] + x0[1]
+                elif case["kind"] in ("longpower", "narrowpower"):
+                    wide = np.complex128 if np.iscomplexobj(x0[0]) else np.float64       # reference in double precision
+                    tot = x0[0].astype(wide) if x0[1] is None else (x0[0] + x0[1]).astype(wide)
+                    x0 = (x0[0].astype(wide), None if x0[1] is None else x0[1].astype(wide))
                     res.update(status="ok", n=len(x), power=[float(v) for v in np.atleast_1d(x.power())],
                                power_sig=[float(v) for v in np.atleast_1d(x.power('signal'))],
                                power_noise=[float(v) for v in np.atleast_1d(x.power('noise'))],
@@ -241,7 +256,7 @@ def model_requests(case, res):
         return []
     if case["kind"] == "waxis":
         return [f"fourier.waxis {case['n']} {enc_f(res['fs'])} {enc_bool(case['shift'])}"]
-    if case["kind"] == "longpower":
+    if case["kind"] in ("longpower", "narrowpower"):
         return []
     dom = "w" if case["dom"] in ("w", "f") else "t"
     return [f"fourier.call {dom} {enc_bool(case['shift'])} {_enc_payload(res['in_sig'], res['in_noise'])}",
@@ -317,13 +332,14 @@ def oracle(case, res):
         return [("C02:raises", f"valid request failed: {res}")]
     n = case["n"]
     eps = 64 * 2.2e-16
-    if case["kind"] == "longpower":
+    if case["kind"] in ("longpower", "narrowpower"):
+        ptol_ = {"float16": 2e-3, "float32": 1e-5, "complex64": 1e-5}.get(case["dtype"], 1e-10) if case["kind"] == "narrowpower" else 1e-10
         for name, got, want in (("all", res["power"], res["want"]), ("signal", res["power_sig"], res["want_sig"]),
                                 ("noise", res["power_noise"], res["want_noise"])):
             if want is None:
                 continue
-            if len(got) != len(want) or not np.all(np.abs(np.array(got) - np.array(want)) <= 1e-10 * np.maximum(1e-300, np.array(want))):
-                v.append(("C02:power", f"power('{name}') of a {n}-sample record {got} != mean|x|^2 {want}"))
+            if len(got) != len(want) or not np.all(np.abs(np.array(got) - np.array(want)) <= ptol_ * np.maximum(1e-300, np.array(want))):
+                v.append(("C02:power", f"power('{name}') of a {n}-sample {case['dtype']} record {got} != mean|x|^2 {want}"))
         if res["n"] != n:
             v.append(("C02:shape", f"len() = {res['n']} for a {n}-sample record"))
         return v
